@@ -523,3 +523,168 @@ Proof.
         repeat (destruct Hc as [Hc|Hc]; [subst c; reflexivity|]); contradiction|]). contradiction.
   - vm_compute. repeat split.
 Qed.
+
+(* ---------------------------------------------------------------- Exec with writers that fail (exec_x) *)
+
+Lemma length_chars : forall s, length (chars s) = String.length s.
+Proof. induction s; simpl; congruence. Qed.
+Lemma length_str_of : forall l, String.length (str_of l) = length l.
+Proof. induction l; simpl; congruence. Qed.
+
+(* a buffer accepts the whole stream; a writer that fails after n bytes has accepted exactly the first
+   min(n, length) bytes and reports a failure exactly when the stream is longer than n *)
+Lemma accepted_spec : forall w d,
+  match w with
+  | XW WBuf => accepted w d = d /\ write_fails w d = false
+  | XW _ => accepted w d = EmptyString /\ write_fails w d = false
+  | XFail n => (exists rest, d = String.append (accepted w d) rest) /\
+               String.length (accepted w d) = Nat.min n (String.length d) /\
+               (write_fails w d = true <-> n < String.length d)
+  end.
+Proof.
+  intros [[| | |]|n] d; simpl; try (split; reflexivity).
+  split; [|split].
+  - exists (str_of (skipn n (chars d))). rewrite <- str_of_app, firstn_skipn, str_of_chars. reflexivity.
+  - rewrite length_str_of, firstn_length, length_chars. reflexivity.
+  - apply Nat.ltb_lt.
+Qed.
+
+Lemma run_err_no_copy_error : forall r, run_err r false = cmd_run_err r.
+Proof. intros r. unfold run_err. destruct (cmd_run_err r); reflexivity. Qed.
+
+Section X.
+Variable penv : envlist.
+Variable child : list string -> list string -> child_result.
+
+(* copying the child's output into the writers reported an error *)
+Definition copy_failed (so se : xwriter) (r : child_result) : bool :=
+  write_fails so (child_out r) || write_fails se (child_err r).
+
+(* the outcome part of Exec's result as a function of what the child did and of the copy error *)
+Definition outcome_x (r : child_result) (copy_err : bool) : bool * err :=
+  match r with
+  | Started k _ _ => if Z.eqb k 0 then (if copy_err then (false, EOther) else (true, ENil)) else (true, EFatal k)
+  | Signaled _ _ _ => (false, EOther)
+  | NotStarted => (false, EOther)
+  end.
+
+(* conservative: with writers that never fail exec_x IS exec_ *)
+Lemma exec_x_conservative : forall envm so se cmd args,
+  exec_x penv child envm (XW so) (XW se) cmd args = exec_ penv child envm so se cmd args.
+Proof.
+  intros. unfold exec_x, exec_, run_x, run_. simpl. rewrite run_err_no_copy_error. reflexivity.
+Qed.
+
+Lemma exec_x_core : forall envm so se cmd args,
+  let x := exec_x penv child envm so se cmd args in
+  let r := child (k_argv x) (k_envp x) in
+  k_child x = r /\
+  k_argv x = map (expand (exec_mapping penv envm)) (cmd :: args) /\
+  k_envp x = dedup_env (environ penv ++ map entry_str envm) /\
+  k_stdin x = OsStdin /\
+  (k_ran x, k_err x) = outcome_x r (copy_failed so se r) /\
+  k_buf_out x = accepted so (child_out r) /\
+  k_buf_err x = accepted se (child_err r).
+Proof.
+  intros envm so se cmd args. unfold exec_x, run_x, run_err, copy_failed. simpl.
+  set (argv := expand (exec_mapping penv envm) cmd :: map (expand (exec_mapping penv envm)) args).
+  set (envp := dedup_env (environ penv ++ map entry_str envm)).
+  destruct (child argv envp) as [k o eo|s o eo|] eqn:R; simpl.
+  - destruct (Z.eqb k 0) eqn:E; simpl;
+      [destruct (write_fails so o || write_fails se eo) eqn:C; simpl|];
+      rewrite R; simpl; rewrite ?E, ?C; repeat split; reflexivity.
+  - rewrite R. repeat split; reflexivity.
+  - rewrite R. repeat split; reflexivity.
+Qed.
+
+Ltac xcore envm so se cmd args :=
+  let H := fresh "H" in
+  pose proof (exec_x_core envm so se cmd args) as H; cbv zeta in H;
+  destruct H as (Hchild & Hargv & Henvp & Hstdin & Hout & Hbo & Hbe).
+Ltac xoutc := match goal with Hout : (_, _) = (_, _) |- _ =>
+  let Hr := fresh "Hr" in let He := fresh "He" in injection Hout as Hr He; rewrite ?Hr, ?He end.
+
+(* err = nil exactly when the child exited 0 and copying its output did not fail *)
+Lemma x_nil_iff : forall envm so se cmd args,
+  let x := exec_x penv child envm so se cmd args in
+  let r := child (k_argv x) (k_envp x) in
+  k_err x = ENil <-> (exists o eo, r = Started 0 o eo) /\ copy_failed so se r = false.
+Proof.
+  intros envm so se cmd args x r. subst x r. xcore envm so se cmd args.
+  destruct (child _ _) as [k o eo|s o eo|] eqn:R; simpl in Hout.
+  - destruct (Z.eqb k 0) eqn:E;
+      [destruct (copy_failed so se (Started k o eo)) eqn:C|]; xoutc; split.
+    + discriminate.
+    + intros [_ H]; discriminate.
+    + intros _. apply Z.eqb_eq in E. subst k. split; [eauto|reflexivity].
+    + reflexivity.
+    + discriminate.
+    + intros [(o' & eo' & H) _]. inversion H; subst. discriminate.
+  - xoutc. split; [discriminate|]. intros [(o' & eo' & H) _]; discriminate.
+  - xoutc. split; [discriminate|]. intros [(o' & eo' & H) _]; discriminate.
+Qed.
+
+(* whatever the writers do: exit k <> 0 is reported as k, a signaled or not started child as a plain error *)
+Lemma x_status : forall envm so se cmd args,
+  let x := exec_x penv child envm so se cmd args in
+  let r := child (k_argv x) (k_envp x) in
+  (forall k o eo, r = Started k o eo -> k <> 0%Z ->
+     k_ran x = true /\ k_err x = EFatal k /\ mg_ExitStatus (k_err x) = k /\ sh_ExitStatus (k_err x) = k) /\
+  ((r = NotStarted \/ exists s o eo, r = Signaled s o eo) ->
+     k_ran x = false /\ k_err x = EOther /\ mg_ExitStatus (k_err x) = 1%Z /\ sh_ExitStatus (k_err x) = 1%Z).
+Proof.
+  intros envm so se cmd args x r. subst x r. xcore envm so se cmd args.
+  destruct (child _ _) as [k o eo|s o eo|] eqn:R; simpl in Hout; split.
+  - intros k' o' eo' H Hk. inversion H; subst k' o' eo'.
+    destruct (Z.eqb k 0) eqn:E; [apply Z.eqb_eq in E; contradiction|]. xoutc. repeat split.
+  - intros [H|(s & o' & eo' & H)]; discriminate.
+  - intros k' o' eo' H; discriminate.
+  - intros _. xoutc. repeat split.
+  - intros k' o' eo' H; discriminate.
+  - intros _. xoutc. repeat split.
+Qed.
+
+(* the command exits 0 but a writer fails: reported like a command that did not run *)
+Lemma x_failing_writer : forall envm so se cmd args o eo,
+  let x := exec_x penv child envm so se cmd args in
+  child (k_argv x) (k_envp x) = Started 0 o eo -> copy_failed so se (Started 0 o eo) = true ->
+  k_ran x = false /\ k_err x = EOther /\ mg_ExitStatus (k_err x) = 1%Z /\ sh_ExitStatus (k_err x) = 1%Z.
+Proof.
+  intros envm so se cmd args o eo x R C. subst x. xcore envm so se cmd args.
+  rewrite R in Hout. simpl in Hout. rewrite C in Hout. xoutc. repeat split.
+Qed.
+
+(* a non-nil error never carries status 0 *)
+Lemma x_nonnil_status_nonzero : forall envm so se cmd args,
+  let x := exec_x penv child envm so se cmd args in
+  k_err x <> ENil -> mg_ExitStatus (k_err x) <> 0%Z /\ sh_ExitStatus (k_err x) <> 0%Z.
+Proof.
+  intros envm so se cmd args x. subst x. xcore envm so se cmd args.
+  destruct (child _ _) as [k o eo|s o eo|] eqn:R; simpl in Hout.
+  - destruct (Z.eqb k 0) eqn:E;
+      [destruct (copy_failed so se (Started k o eo)) eqn:C|]; xoutc; simpl; intros H.
+    + split; discriminate.
+    + contradiction.
+    + apply Z.eqb_neq in E. split; assumption.
+  - xoutc. simpl. intros _. split; discriminate.
+  - xoutc. simpl. intros _. split; discriminate.
+Qed.
+
+Lemma x_writers : forall envm so se cmd args,
+  let x := exec_x penv child envm so se cmd args in
+  let r := child (k_argv x) (k_envp x) in
+  k_buf_out x = accepted so (child_out r) /\ k_buf_err x = accepted se (child_err r) /\
+  k_argv x = map (expand (exec_mapping penv envm)) (cmd :: args) /\
+  k_envp x = dedup_env (environ penv ++ map entry_str envm) /\ k_stdin x = OsStdin.
+Proof.
+  intros envm so se cmd args x r. subst x r. xcore envm so se cmd args. repeat split; assumption.
+Qed.
+End X.
+
+Lemma nonvacuous_x :
+  let x := exec_x nv_penv nv_child nv_envm (XFail 2) (XW WBuf) "/bin/tool" [] in
+  let y := exec_x nv_penv (fun _ _ => Started 0 "abc" "") nv_envm (XFail 2) (XW WBuf) "/bin/tool" [] in
+  k_err x = EFatal 3 /\ k_buf_out x = "ou" /\ k_buf_err x = "err" /\
+  k_err y = EOther /\ k_ran y = false /\ k_buf_out y = "ab" /\
+  k_err (exec_x nv_penv (fun _ _ => Started 0 "ab" "") nv_envm (XFail 2) (XW WBuf) "/bin/tool" []) = ENil.
+Proof. vm_compute. repeat split. Qed.
